@@ -183,7 +183,9 @@ pub fn op_rx(eng: &mut FdtEngine, id: u32, now: u64, o: &mut Oracle) -> String {
         let mut g: Vec<String> = cfg.groups.clone().unwrap_or_default();
         g.extend(ob.groups.clone().unwrap_or_default());
         let gg = m.groups.clone().unwrap_or_default();
-        cmp(&cl("rx-groups", &g.join("")), gg == g, list_hx(&gg), list_hx(&g));
+        let eol = |s: &str| s.contains('\u{2028}') || s.contains('\u{85}') || s.contains('\r');
+        let gclass = if g.iter().any(|x| eol(x)) { "rx-groups-eol11".to_string() } else { cl("rx-groups", &g.join("")) };
+        cmp(&gclass, gg == g, list_hx(&gg), list_hx(&g));
         let want_cc = match &ob.cc {
             None => format!("hint{}", want_exp),
             Some(Cc::NoCache) => "nc".into(),
